@@ -5,6 +5,11 @@ V = os.path.dirname(os.path.dirname(os.path.abspath(__file__)))
 ALL = ["C%02d" % i for i in range(1, 20)]
 TECH = "symbolic execution of the real /repo source on z3 bit-vector proxies (symx), per-path SMT queries, concrete replay"
 CLAIMED = {
+ "C04": dict(text="Bounded symbolic verification: responses laid out by independent standard-derived builders with every field "
+                  "a solver variable and the structure (descriptor counts, kinds, layouts) enumerated; the real decoders run "
+                  "on them and z3 decides field-by-field equality and exact descriptor counts, with symbolic trailing bytes.",
+             ref="3/C04", note="spec/responses.py trusted; <= 2 descriptors per level quick / 4 thorough; two known findings "
+                               "(multi-page MODE SENSE, REPORT PRIORITY) are pinned in known_findings.json"),
  "C15": dict(text="Bounded symbolic verification: SCSIDevice over stubbed open/os.stat/sgio; event sequences (keep / replace "
                   "/ remove node, close failure, CHECK CONDITION) enumerated up to k, inode values symbolic so that z3 decides "
                   "every equal/different relation; handle-inode == node-inode at send, superseded handles closed, release "
